@@ -84,7 +84,7 @@ def compare(ctx, impl_lines, label):
 
 def selftest_fadd(ctx, h):
     """the oracle's exact float addition against the hardware's"""
-    n = 10000 if ctx.tier == "quick" else 200000
+    n = 8000 if ctx.tier == "quick" else 200000
     rc, out, err = common.run_harness(h, ["fadd", str(n)])
     if rc != 0:
         raise common.BuildError("c16 harness (fadd) failed: " + err[-2000:])
@@ -133,7 +133,7 @@ def run(ctx):
     lines = out.split("\n")[:-1]
     compare(ctx, lines, "lattice")
     ctx.extra["exhaustive_lattice_lines"] = len(lines)
-    n = 10000 if ctx.tier == "quick" else 500000
+    n = 8000 if ctx.tier == "quick" else 500000
     rc, out, err = common.run_harness(h, ["random", str(n)])
     if rc != 0:
         raise common.BuildError("c16 harness failed: " + err[-2000:])
